@@ -24,6 +24,7 @@ static void one(size_t idx, const mj::Value& c, const char* f, const char* route
     bool dok = false; mj::Value dv = mj::Value::array(); dv.push("none");
     if (ok) { try { json back = dec(bytes); dv = bv::project(back); dok = true; } catch (const std::exception& e) { t.set("derr", e.what()); } }
     t.set("dec_ok", dok); t.set("dec", dv);
+    if (c["v"][0].str() == "uint") { uint64_t u = 0; bv::be_to_u64(c["v"][1], u); std::string d = std::to_string(u); t.set("decimal", bv::raw(d.data(), d.size())); }
     hz::emit(t);
 }
 
